@@ -80,6 +80,10 @@ def gen(seed, run, tier='quick'):
                                             str(rng.randrange(3, 9000) / 8)]
                     elif x < 0.6:
                         table[f"{a}{b}"] = ['raise']
+                    elif x < 0.66 and kind == 'stub':
+                        # a converter that retires: when consulted for this
+                        # pair it unregisters itself and declines
+                        table[f"{a}{b}"] = ['expire']
         gconvs.append({'kind': kind, 'table': table})
     if rng.random() < 0.3:
         # twins among the generic converters, too
@@ -304,6 +308,12 @@ def execute(h):
                 return None
             if e[0] == 'raise':
                 raise _StubRaise(self.idx)
+            if e[0] == 'expire':
+                try:
+                    G.remove_converter(self)
+                except ValueError:
+                    pass
+                return None
             if e[0] == 'amtf':
                 return float(qty.amount) * float(e[1])
             return qty.amount * _frac(e[1])
@@ -359,6 +369,9 @@ def execute(h):
     answers = [{p: safely(direct, mc, *p) for p in pairs} for mc in mconvs]
 
     def gdirect(gc, a, b, k):
+        spec = getattr(gc, 'table', None)
+        if spec is not None and spec.get(f"{a}{b}", [None])[0] == 'expire':
+            return ('expire',)      # not called here: it would unregister
         try:
             amt = gc(gq_sets[k][a], gunits[b])
         except _StubRaise:
@@ -416,11 +429,19 @@ def execute(h):
     def conv_exp(e):
         return e[:2]
 
+    expired = []
+
     def expected_generic(p):
         """first converter, most recent first, that returns an amount."""
         skipped = 0
         for gi in reversed(glist):
             a = ganswers[gi][p]
+            if a[0] == 'expire':
+                # consulted, unregisters itself, declines; the conversion
+                # goes on with the next older converter
+                expired.append(gi)
+                skipped += 1
+                continue
             if a[0] == 'none':
                 skipped += 1
                 continue
@@ -429,13 +450,20 @@ def execute(h):
             return a, skipped
         return ('exc', 'UnitConversionError'), skipped
 
+    held_exceptions = []
+
     def observe(fn):
-        # C12 names no exception type: "cannot convert" is any exception
+        # C12 names no exception type: "cannot convert" is any exception.
+        # The exception objects are kept (as an application that collects
+        # its errors does): with them their tracebacks and the frames of
+        # the failed conversions stay alive for the rest of the history.
         try:
             r = fn()
-        except _StubRaise:
+        except _StubRaise as e:
+            held_exceptions.append(e)
             return ('stubraise',)
-        except Exception:     # noqa
+        except Exception as e:     # noqa
+            held_exceptions.append(e)
             return ('exc', 'UnitConversionError')
         return ('ok', r)
 
@@ -459,6 +487,7 @@ def execute(h):
                                     if same_conv(x, g)), -1)
                               for x in obs_g])
         vec = []
+        key_at_start = (tuple(mstack), tuple(glist))
         # --- money conversions, every ordered pair
         for p in pairs:
             a, b, k = p
@@ -566,7 +595,12 @@ def execute(h):
             o = observe(lambda: _num(
                 gq_sets[k][a].convert(gunits[b]).amount))
             vec.append(o)
+            del expired[:]
             e, skipped = expected_generic(p)
+            for gi in expired:
+                if gi in glist:
+                    glist.remove(gi)
+                    bump(faults, 'converter_unregistered_itself_mid_lookup')
             if e[0] == 'unjudged':
                 bump(probes, 'stub_raised_when_consulted')
                 continue
@@ -577,8 +611,11 @@ def execute(h):
                 violate('generic_convert', 'value', step, pair=list(p),
                         expected=list(e), observed=list(o),
                         model_list=list(glist), answered_by=who)
-        # --- same registrations => same behaviour (restoration)
+        # --- same registrations => same behaviour (restoration); a sweep
+        # during which a converter retired spans two states and is skipped
         key = (tuple(mstack), tuple(glist))
+        if key != key_at_start:
+            return vec
         prev = seen_by_state.get(key)
         if prev is None:
             seen_by_state[key] = (step, vec)
